@@ -29,6 +29,32 @@ COVER = {
 }
 
 
+def sig_tags(term):
+    """All (getter, tag, decoded?, receiver) rows the signature argument can come from: one, or - for a loop over
+    `[a, b].into_iter().flatten()` - one per element of the array."""
+    t = term
+    dec = False
+    for _ in range(12):
+        if t[0] == "proj":
+            t = t[1]
+            continue
+        if t[0] == "call" and t[1].endswith("decode_sig"):
+            dec = True
+            t = t[2][0]
+            continue
+        if t[0] == "call" and re.search(r"(Iterator::next|IntoIterator::into_iter|Iterator::flatten|Iterator::by_ref)$", t[1]) and t[2]:
+            t = t[2][0]
+            continue
+        break
+    if t[0] == "agg" and t[1] == "array" and t[2]:
+        rows = [sig_tag(x) for x in t[2]]
+        if all(r is not None for r in rows):
+            return [(g, tg, d or dec, rc) for (g, tg, d, rc) in rows]
+        return []
+    one = sig_tag(term)
+    return [one] if one is not None else []
+
+
 def sig_tag(term):
     """(getter, tag, decoded?) of the signature argument's provenance term."""
     decoded = False
@@ -198,23 +224,23 @@ def run(f, fixture, rep, cfg, tier):
     seen_tags = set()
     for i, c in enumerate(verify_calls):
         otb = tbs[c.body.path]
-        st = sig_tag(otb.term(c.args[2]))
-        if not rep.check(st is not None, "R4", "sig-origin|#%d" % i, "signature argument comes from a signature tag getter",
+        sts = sig_tags(otb.term(c.args[2]))
+        if not rep.check(bool(sts), "R4", "sig-origin|#%d" % i, "signature argument comes from a signature tag getter",
                          "the signature passed to the verifier does not come from a signature-header tag: %s" % render(otb.term(c.args[2]))[:200], c.loc()):
             continue
-        getter, tag, decoded, recv = st
-        seen_tags.add(tag)
-        if tag not in COVER:
-            rep.finding("R4", "sig-tag|%s" % tag, "a signature is read from %s, which is not a signature tag of the table" % tag, c.loc())
-            continue
-        want_getter, want_data = COVER[tag]
-        rep.check(getter == want_getter and recv == "self.metadata.signature", "R4", "sig-getter|%s" % tag, "%s read with %s from the signature header" % (tag, want_getter),
-                  "%s read with %s from %s" % (tag, getter, recv), c.loc())
-        rep.check(decoded == (tag == "RPMSIGTAG_OPENPGP"), "R4", "sig-decode|%s" % tag, "%s %s" % (tag, "base64-decoded" if decoded else "used raw"),
-                  "%s is %s" % (tag, "not base64-decoded" if not decoded else "unexpectedly base64-decoded"), c.loc())
-        got = data_term(otb.term(c.args[1]))
-        rep.check(got == want_data, "R4", "data|%s" % tag, "%s is verified over %s" % (tag, want_data),
-                  "%s is verified over %s, but it covers %s" % (tag, got, want_data), c.loc())
+        for (getter, tag, decoded, recv) in sts:
+            seen_tags.add(tag)
+            if tag not in COVER:
+                rep.finding("R4", "sig-tag|%s" % tag, "a signature is read from %s, which is not a signature tag of the table" % tag, c.loc())
+                continue
+            want_getter, want_data = COVER[tag]
+            rep.check(getter == want_getter and recv == "self.metadata.signature", "R4", "sig-getter|%s" % tag, "%s read with %s from the signature header" % (tag, want_getter),
+                      "%s read with %s from %s" % (tag, getter, recv), c.loc())
+            rep.check(decoded == (tag == "RPMSIGTAG_OPENPGP"), "R4", "sig-decode|%s" % tag, "%s %s" % (tag, "base64-decoded" if decoded else "used raw"),
+                      "%s is %s" % (tag, "not base64-decoded" if not decoded else "unexpectedly base64-decoded"), c.loc())
+            got = data_term(otb.term(c.args[1]))
+            rep.check(got == want_data, "R4", "data|%s" % tag, "%s is verified over %s" % (tag, want_data),
+                      "%s is verified over %s, but it covers %s" % (tag, got, want_data), c.loc())
     for tag in COVER:
         rep.check(tag in seen_tags, "R4", "tag-consulted|%s" % tag, "%s is consulted" % tag, "%s is never presented to the verifier" % tag, b.span)
 
